@@ -127,6 +127,9 @@ func c08Pool() (pool []srule) {
 	pool = append(pool, srule{true, c08P1, []string{"dnsrewrite"}})
 	// modifiers that stand for several options (a later one must not wipe an earlier one)
 	pool = append(pool, srule{true, c08P1, []string{"document"}}, srule{true, c08P1, []string{"important", "document"}})
+	// value lists with several entries of one polarity (their order must not depend on the parse)
+	pool = append(pool, srule{false, c08P1, []string{"domain=src.org|other.org|third.org"}}, srule{false, c08P1, []string{"domain=~a.org|~b.org|src.org"}},
+		srule{false, c08P1, []string{"denyallow=x.com|y.com|z.com"}})
 	return pool
 }
 
@@ -146,6 +149,20 @@ func c08Pair(x *c08Ctx, sx, sy srule) int64 {
 	var evals int64
 	same := sx.ident() == sy.ident()
 	y := sy.parse()
+	if same && strings.Contains(sy.text(), "|") {
+		// a rule and its twin are parsed separately; whether the twin negates the
+		// rule must not depend on the parse: 32 fresh parses of both
+		for k := 0; k < 32; k++ {
+			evals++
+			y2, t2 := sy.parse(), sx.twin(len(sx.opts)).parse()
+			if got := rules.NewMatchingResult([]*rules.NetworkRule{y2, t2}, nil).GetBasicResult(); got != nil {
+				x.violate("badfilter-disables-exactly-twins", map[string]any{"badfilter": sx.ident(), "rule": sy.ident(), "parse": "repeated"},
+					fmt.Sprintf("parse #%d of %q and of its twin %q: NewMatchingResult still returns %q", k+1, sy.text(), sx.twin(len(sx.opts)).text(), got.RuleText),
+					map[string]any{"badfilter": sx.twin(len(sx.opts)).text(), "rule": sy.text()})
+				break
+			}
+		}
+	}
 	for pos := 0; pos <= len(sx.opts); pos++ {
 		st := sx.twin(pos)
 		t := st.parse()
